@@ -3,6 +3,7 @@
 From ZV.Common Require Import Base Run.
 From Coq Require Import Sorting.Permutation Sorting.Sorted.
 From ZV.C12 Require Import Spec Model ProofsOrder ProofsSearch ProofsBuild ProofsKasai ProofsAll.
+From ZV.C12 Require Import ModelDict ProofsDictRange ProofsDict ModelCases.
 Open Scope nat_scope.
 
 (* the order used by the spec is the textbook one: proper prefix, or smaller at the first difference *)
@@ -143,3 +144,73 @@ Check c12_pipeline :
        (forall i, In i (firstn n (skipn l sa)) <-> occurs t p i) /\
        n = length (filter (occursb t p) (seq 0 (length t)))).
 Print Assumptions c12_pipeline.
+
+(* ================= PA-Zip dictionary matcher (src/compression/dict_zip/dictionary.rs) ================= *)
+
+(* sa_equal_range / sa_equal_range_binary_optimized: on a suffix array, for a rank range whose suffixes
+   share a prefix of length d, the result is exactly the ranks of the range with byte c at depth d *)
+Theorem sa_equal_range_exact :
+  forall t sa lo hi d c p l r,
+    is_sa t sa -> length p = d ->
+    (forall k, lo <= k < hi -> k < length sa -> firstn d (suffix t (nth k sa 0)) = p) ->
+    sa_equal_range t sa lo hi d c = (l, r) ->
+    l <= r /\
+    (forall k, l <= k < r <->
+               (lo <= k < hi /\ k < length sa /\ nth_error (suffix t (nth k sa 0)) d = Some c)).
+Proof. exact sa_equal_range_exact_proof. Qed.
+Check sa_equal_range_exact :
+  forall t sa lo hi d c p l r,
+    is_sa t sa -> length p = d ->
+    (forall k, lo <= k < hi -> k < length sa -> firstn d (suffix t (nth k sa 0)) = p) ->
+    sa_equal_range t sa lo hi d c = (l, r) ->
+    l <= r /\
+    (forall k, l <= k < r <->
+               (lo <= k < hi /\ k < length sa /\ nth_error (suffix t (nth k sa 0)) d = Some c)).
+Print Assumptions sa_equal_range_exact.
+
+(* sa_match_continuation from the full range: depth = length of the longest prefix of the input that
+   occurs in the text, [lo, hi) = exactly the ranks whose suffixes start with it *)
+Theorem sa_match_continuation_longest :
+  forall t sa q lo hi d,
+    is_sa t sa -> sa_match_continuation t sa 0 (length sa) 0 q = (lo, hi, d) ->
+    d <= length q /\ lo <= hi <= length sa /\
+    (forall k, lo <= k < hi <-> (k < length sa /\ is_prefix (firstn d q) (suffix t (nth k sa 0)))) /\
+    (d < length q -> forall k, k < length sa -> ~ is_prefix (firstn (S d) q) (suffix t (nth k sa 0))).
+Proof. exact sa_match_continuation_longest_proof. Qed.
+Check sa_match_continuation_longest :
+  forall t sa q lo hi d,
+    is_sa t sa -> sa_match_continuation t sa 0 (length sa) 0 q = (lo, hi, d) ->
+    d <= length q /\ lo <= hi <= length sa /\
+    (forall k, lo <= k < hi <-> (k < length sa /\ is_prefix (firstn d q) (suffix t (nth k sa 0)))) /\
+    (d < length q -> forall k, k < length sa -> ~ is_prefix (firstn (S d) q) (suffix t (nth k sa 0))).
+Print Assumptions sa_match_continuation_longest.
+
+(* da_match_max_length: for every trie transition function without a transition from the root back to
+   the root, the DFA-cache walk is sa_match_continuation from the full range *)
+Theorem da_match_is_continuation :
+  forall (trans : N -> N -> option N) t sa q,
+    (forall b, trans 0%N b <> Some 0%N) -> q <> [] ->
+    da_match_max_length trans t sa q = sa_match_continuation t sa 0 (length sa) 0 q.
+Proof. exact da_match_is_continuation_proof. Qed.
+Check da_match_is_continuation :
+  forall (trans : N -> N -> option N) t sa q,
+    (forall b, trans 0%N b <> Some 0%N) -> q <> [] ->
+    da_match_max_length trans t sa q = sa_match_continuation t sa 0 (length sa) 0 q.
+Print Assumptions da_match_is_continuation.
+
+Theorem da_match_max_length_longest :
+  forall (trans : N -> N -> option N) t sa q lo hi d,
+    (forall b, trans 0%N b <> Some 0%N) -> q <> [] ->
+    is_sa t sa -> da_match_max_length trans t sa q = (lo, hi, d) ->
+    d <= length q /\ lo <= hi <= length sa /\
+    (forall k, lo <= k < hi <-> (k < length sa /\ is_prefix (firstn d q) (suffix t (nth k sa 0)))) /\
+    (d < length q -> forall k, k < length sa -> ~ is_prefix (firstn (S d) q) (suffix t (nth k sa 0))).
+Proof. exact da_match_max_length_longest_proof. Qed.
+Check da_match_max_length_longest :
+  forall (trans : N -> N -> option N) t sa q lo hi d,
+    (forall b, trans 0%N b <> Some 0%N) -> q <> [] ->
+    is_sa t sa -> da_match_max_length trans t sa q = (lo, hi, d) ->
+    d <= length q /\ lo <= hi <= length sa /\
+    (forall k, lo <= k < hi <-> (k < length sa /\ is_prefix (firstn d q) (suffix t (nth k sa 0)))) /\
+    (d < length q -> forall k, k < length sa -> ~ is_prefix (firstn (S d) q) (suffix t (nth k sa 0))).
+Print Assumptions da_match_max_length_longest.
